@@ -2085,4 +2085,85 @@ theorem verifyStatuses_revoked {E : Env} {K : KeyEnv} (hE : EnvOK E) (i : Bool) 
       obtain ⟨st', hm, rest'⟩ := ih hw h
       exact ⟨st', List.mem_cons_of_mem _ hm, rest'⟩
 
+/-- on the node that manages the list, a position that is NOT revoked lets the loop continue (no download, state unchanged) -/
+theorem checkStatus_local_clear {E : Env} (hE : EnvOK E) {n : Node} (hn : NInv E n) {u : Url} {j : Nat} (hm : n.isManaged u = true)
+    (hj : j ∉ n.revsOf u) (hle : j ≤ E.maxIndex)
+    (now : Nat) (f : Fetch) (st : StatusEntry) (hst : st.list = u) (hpu : st.purpose = "revocation") (hidx : st.idx = some (j : Int)) :
+    checkStatus E now n st f = (none, n) ∧ needsFetch E now n u = false := by
+  obtain ⟨rec, hrec⟩ := hn.has u hm
+  obtain ⟨hbits, _⟩ := hn.crec u rec hm hrec
+  obtain ⟨_, _, _, hp, hiff⟩ := signed_served hE hn hm hrec
+  obtain ⟨hlen, _⟩ := bits_exact hE (hn.revsOf_le u) hbits
+  have hsl : statusList E now n u f = .ok (rec, n) := by simp [statusList, hrec, hm]
+  have hgb : getB rec.bits j = false := by
+    cases h : getB rec.bits j with
+    | false => rfl
+    | true => exact absurd ((hiff j).mp h) hj
+  have hbit : rec.bits.bit (j : Int) = .ok false := by
+    have hr : (0 : Int) ≤ (j : Int) ∧ (j : Int) < 8 * rec.bits.length := by
+      have := hE.idx; rw [hlen]; omega
+    unfold Bits.bit
+    have h1 : ¬ ((j : Int) < 0) := by omega
+    have h2 : ¬ ((j : Int).toNat / 8 ≥ rec.bits.length) := by simp; have := hE.idx; rw [hlen]; omega
+    simp only [h1, h2, if_false]
+    have h3 : (j : Int).toNat / 8 < rec.bits.length := by simp; have := hE.idx; rw [hlen]; omega
+    rw [List.getElem?_eq_getElem h3]
+    simp only
+    unfold getB Bits.bit at hgb
+    simp only [h1, h2, if_false, List.getElem?_eq_getElem h3] at hgb
+    rw [hgb]
+  refine ⟨?_, by simp [needsFetch, hrec, hm]⟩
+  unfold checkStatus
+  rw [hst, hsl]
+  simp [hp, hpu, hidx, hbit]
+
+/-- all relevant entries name lists managed by the verifying node, with positions inside the bitstring -/
+def LocalEntries (E : Env) (n : Node) (sts : List StatusEntry) : Prop :=
+  ∀ st, st ∈ sts → st.relevant = true → n.isManaged st.list = true ∧ ∃ j : Nat, st.idx = some (j : Int) ∧ j ≤ E.maxIndex
+
+/-- `each entry by its own list` on the managing node: the verdict is revoked exactly when SOME relevant entry's position is
+    revoked in the list THAT entry names; nothing is downloaded and nothing changes -/
+theorem verifyStatuses_local_exact {E : Env} (hE : EnvOK E) (i : Bool) (sts : List StatusEntry) {w : World} (hw : WInv E w)
+    (hl : LocalEntries E (w.get i) sts) :
+    ((verifyStatuses E i w sts).1 = .revoked ↔
+      ∃ st j, st ∈ sts ∧ st.relevant = true ∧ st.idx = some ((j : Nat) : Int) ∧ j ∈ (w.get i).revsOf st.list) ∧
+    ((verifyStatuses E i w sts).1 = .revoked ∨ (verifyStatuses E i w sts).1 = .ok) := by
+  induction sts with
+  | nil => simp [verifyStatuses]
+  | cons st rest ih =>
+    have hl' : LocalEntries E (w.get i) rest := fun s hs hr => hl s (List.mem_cons_of_mem _ hs) hr
+    obtain ⟨ih1, ih2⟩ := ih hl'
+    unfold verifyStatuses
+    by_cases hrel : st.relevant = true
+    · obtain ⟨hm, j, hidx, hle⟩ := hl st List.mem_cons_self hrel
+      have hpu : st.purpose = "revocation" := by
+        simp only [StatusEntry.relevant, Bool.and_eq_true, beq_iff_eq] at hrel; exact hrel.2
+      by_cases hj : j ∈ (w.get i).revsOf st.list
+      · obtain ⟨h1, h2⟩ := checkStatus_local hE (hw.node i) hj w.now Fetch.fail st rfl hpu hidx
+        simp only [hrel, Bool.not_true, Bool.false_eq_true, if_false, h2, h1]
+        exact ⟨⟨fun _ => ⟨st, j, List.mem_cons_self, hrel, hidx, hj⟩, fun _ => trivial⟩, Or.inl trivial⟩
+      · obtain ⟨h1, h2⟩ := checkStatus_local_clear hE (hw.node i) hm hj hle w.now Fetch.fail st rfl hpu hidx
+        simp only [hrel, Bool.not_true, Bool.false_eq_true, if_false, h2, h1, set_get_self]
+        refine ⟨?_, ih2⟩
+        rw [ih1]
+        constructor
+        · rintro ⟨s, k, hs, h3, h4, h5⟩; exact ⟨s, k, List.mem_cons_of_mem _ hs, h3, h4, h5⟩
+        · rintro ⟨s, k, hs, h3, h4, h5⟩
+          rcases List.mem_cons.mp hs with rfl | hs
+          · rw [hidx] at h4
+            have : j = k := by simp only [Option.some.injEq] at h4; omega
+            subst this
+            exact absurd h5 hj
+          · exact ⟨s, k, hs, h3, h4, h5⟩
+    · have hrel' : st.relevant = false := by simpa using hrel
+      simp only [hrel', Bool.not_false, if_true]
+      refine ⟨?_, ih2⟩
+      rw [ih1]
+      constructor
+      · rintro ⟨s, k, hs, h3, h4, h5⟩; exact ⟨s, k, List.mem_cons_of_mem _ hs, h3, h4, h5⟩
+      · rintro ⟨s, k, hs, h3, h4, h5⟩
+        rcases List.mem_cons.mp hs with rfl | hs
+        · rw [hrel'] at h3; cases h3
+        · exact ⟨s, k, hs, h3, h4, h5⟩
+
 end Nuts.C11
